@@ -16,7 +16,7 @@ fn series(rng: &mut Rng, len: usize, nulls: bool) -> Vec<f64> {
     let style = rng.below(4);
     let mut cur = rng.range(-8, 8);
     let c = rng.range(-4, 4);
-    (0..len).map(|i| if m[i] { f64::NAN } else {
+    (0..len).map(|i| if m[i] { vh::nan_at(i) } else {
         (match style { 0 => rng.range(-40, 40), 1 => { cur += rng.range(0, 3); cur } 2 => c, _ => { cur += rng.range(-5, 5); cur } }) as f64 / 4.0 }).collect()
 }
 
